@@ -304,6 +304,20 @@ func corpusSources() (names, texts []string) {
 
 // sessionExtraSources are programs written to exercise every pass (struct locals, stored locals, helpers, overrides, workgroup memory).
 var sessionExtraSources = []string{
+	`@group(0) @binding(0) var t: texture_2d<f32>;
+@group(0) @binding(1) var sa: sampler;
+@group(0) @binding(2) var sb: sampler;
+@group(0) @binding(3) var sc: sampler;
+@group(0) @binding(4) var td: texture_depth_2d;
+@group(0) @binding(5) var sd: sampler_comparison;
+@group(1) @binding(0) var t2: texture_2d<f32>;
+override gain: f32 = 1.5;
+@fragment fn fs(@location(0) uv: vec2<f32>) -> @location(0) vec4<f32> {
+  let a = textureSample(t, sa, uv); let b = textureSample(t, sb, uv * 0.5); let c = textureSample(t, sc, uv * 0.25);
+  let d = textureSampleCompare(td, sd, uv, 0.5); let e = textureSample(t2, sc, uv) + textureSample(t2, sa, uv);
+  return (a + b + c + e) * d * gain;
+}
+`,
 	`struct P { a: vec3<f32>, b: array<i32, 4>, c: mat2x2<f32> }
 @group(0) @binding(0) var<storage, read_write> o: array<i32, 16>;
 @group(0) @binding(1) var<uniform> u: P;
@@ -336,7 +350,7 @@ func runC12(tier, replay string) int {
 
 	// ---- design level: the specification itself ------------------------------------------------
 	kindsAll := []sessKind{{"spv", "default"}, {"spv", "v1.3"}, {"inst", "default"}, {"hlsl", "default"}, {"msl", "default"},
-		{"glsl", "430"}, {"dxil", "default"}, {"validate", "-"}, {"overrides", "-"}}
+		{"glsl", "430"}, {"dxil", "default"}, {"validate", "-"}, {"overrides", "-"}, {"msl", "pc"}, {"glsl", "pc"}}
 	designKinds := []sessKind{{"spv", "default"}, {"inst", "default"}, {"hlsl", "default"}, {"dxil", "default"}, {"overrides", "-"}}
 	mc := sessionMC(designKinds, 2, []int{1, 2})
 	r, err := c.RunTLC(core.TLCOpts{Spec: "SessionMC", Files: map[string][]byte{"SessionMC.tla": []byte(mc), "trace.ndjson": []byte("{\"ev\":\"reset\"}\n")},
@@ -655,7 +669,7 @@ func runC12(tier, replay string) int {
 			}
 			// an override-resolution call started earlier on the same module object: the module may already carry the
 			// alteration recorded as a known finding (shallow CloneModuleForOverrides)
-			if !reached && e[0] == "start" && kk[0] == "overrides" && int(e[3].(float64)) == ev.Slot {
+			if !reached && e[0] == "start" && (kk[0] == "overrides" || (kk[0] == "glsl" && kk[1] == "pc")) && int(e[3].(float64)) == ev.Slot {
 				taint = "overrides"
 			}
 		}
